@@ -315,6 +315,7 @@ def gen(rng, tier):
     extra += [D.gen_clear_history(rng) for i in range(30 if tier == 'quick' else 500)]
     for c in extra:
         c['kind'] = 'events'
+    extra += [D.gen_dbprog_grown(rng, loopy=0.7) for i in range(30 if tier == 'quick' else 500)]
     return D.spread(cases, extra)
 
 def builtin_corpus():
